@@ -2,6 +2,6 @@
 From BT Require Import Proofs.FootprintProofs Proofs.StoreProofs.
 Definition footprint_set := FootprintProofs.footprint_set.
 Definition footprint_del := FootprintProofs.footprint_del.
-Definition commit_current := StoreProofs.commit_current.
+Definition commit_current := StoreProofs.commit_current_partial.
 Definition reader_sees := StoreProofs.reader_sees.
 Definition commit_reload_refuted := StoreProofs.commit_reload_refuted.
